@@ -60,7 +60,12 @@ pub fn repo_bin() -> String {
 
 /// Run the real binary. `args` are the arguments after `--outfile <generated>`.
 pub fn run_cli(args: &[String], envs: &[(&str, String)]) -> CliResult {
-    let out = fresh_out();
+    run_cli_at(fresh_out(), args, envs, true)
+}
+
+/// The same with a given --outfile; `remove` = delete the written files after reading them
+/// (otherwise they stay for a following run to find).
+pub fn run_cli_at(out: PathBuf, args: &[String], envs: &[(&str, String)], remove: bool) -> CliResult {
     let mut cmd = Command::new(repo_bin());
     cmd.arg("--outfile").arg(&out);
     for a in args {
@@ -74,8 +79,10 @@ pub fn run_cli(args: &[String], envs: &[(&str, String)]) -> CliResult {
     let o = cmd.output().unwrap_or_else(|e| machinery_error(&format!("cannot run the binary: {}", e)));
     let json = std::fs::read_to_string(out.with_extension("json")).ok();
     let svg = std::fs::read_to_string(out.with_extension("svg")).ok();
-    let _ = std::fs::remove_file(out.with_extension("json"));
-    let _ = std::fs::remove_file(out.with_extension("svg"));
+    if remove {
+        let _ = std::fs::remove_file(out.with_extension("json"));
+        let _ = std::fs::remove_file(out.with_extension("svg"));
+    }
     CliResult {
         status: o.status.code(),
         signal: o.status.code().is_none(),
